@@ -5,6 +5,7 @@ import (
 	"os"
 	"path/filepath"
 	"strings"
+	"syscall"
 
 	"vctl/internal/audit"
 	"vctl/internal/grog"
@@ -62,6 +63,19 @@ func CrashPart(run *report.Run, st *Setup, cases, pointsPerCase int, randomKills
 		}
 		env.WipeOutputs()
 		cache := env.CacheDir()
+		// some cached targets are tainted: their forced execution and the bookkeeping around it
+		// (outputs, result, taint removal) are crash points too
+		var tainted []string
+		for _, t := range s.Targets {
+			if r.Chance(1, 3) && len(t.AllOuts()) > 0 && !t.HasTag("no-cache") {
+				tainted = append(tainted, t.Label())
+			}
+		}
+		if len(tainted) > 0 {
+			if env.RunTaint(tainted).Exit != 0 {
+				tainted = nil
+			}
+		}
 		rootDir := filepath.Dir(cache)
 		snapRoot := filepath.Join(env.Dir, "snap-root")
 		snapWS := filepath.Join(env.Dir, "snap-ws")
@@ -106,7 +120,18 @@ func CrashPart(run *report.Run, st *Setup, cases, pointsPerCase int, randomKills
 				return false
 			}
 			_ = os.Remove(hookLog)
-			cr := env.M.Run([]string{"build"}, grog.RunOpts{Build: "crash", Env: append([]string{"GROG_VERIF_LOG=" + hookLog}, plan...)})
+			inodeBefore := map[string]uint64{}
+			if ents, err := os.ReadDir(filepath.Join(cache, "target")); err == nil {
+				for _, en := range ents {
+					if fi, err := os.Stat(filepath.Join(cache, "target", en.Name())); err == nil {
+						if st, ok := fi.Sys().(*syscall.Stat_t); ok {
+							inodeBefore[en.Name()] = st.Ino
+						}
+					}
+				}
+			}
+			crashBuild := fmt.Sprintf("crash%d", len(env.Log))
+			cr := env.M.Run([]string{"build"}, grog.RunOpts{Build: crashBuild, Env: append([]string{"GROG_VERIF_LOG=" + hookLog}, plan...)})
 			env.Logf("%s -> exit %d signaled=%v", what, cr.Exit, cr.Signaled)
 			run.Eval(1)
 			if !cr.Signaled {
@@ -114,6 +139,33 @@ func CrashPart(run *report.Run, st *Setup, cases, pointsPerCase int, randomKills
 			} else {
 				run.Count("crash_runs_killed", 1)
 				run.Count("crash_at:"+at, 1)
+			}
+			// a tainted target whose forced command ran to its end in the killed build: either the
+			// taint is still there (the next build runs it again) or the result of that very
+			// execution was recorded - never "taint gone, old result still in place"
+			if cr.Signaled && len(tainted) > 0 {
+				obsC := env.ReadTrace(crashBuild)
+				hashes := ChangeHashes(ReadHookLog(hookLog))
+				for _, l := range tainted {
+					if obsC.Ended[l] == 0 || hashes[l] == "" {
+						continue
+					}
+					run.Count("tainted_targets_whose_command_finished_in_a_killed_build", 1)
+					_, terr := os.Stat(filepath.Join(cache, "taint", l))
+					taintLeft := terr == nil
+					rewritten := false
+					if fi, err := os.Stat(filepath.Join(cache, "target", hashes[l])); err == nil {
+						if st, ok := fi.Sys().(*syscall.Stat_t); ok {
+							old, had := inodeBefore[hashes[l]]
+							rewritten = !had || old != st.Ino
+						}
+					}
+					if !taintLeft && !rewritten {
+						keep = !run.Violation("taint-gone-but-result-of-the-forced-execution-not-recorded at="+at,
+							fmt.Sprintf("after %s: %s was tainted, its command ran to the end, the taint has been removed, but the stored result is still the one from before the taint (the next build restores the old outputs instead of running it again)", what, l), mkReplay(i, env, nil)) || keep
+						return false
+					}
+				}
 			}
 			store, _ := audit.LoadDir(cache)
 			rep := audit.Audit(store)
